@@ -162,8 +162,12 @@ def ret_cxx(r):
 
 
 # ------------------------------------------------------------------ generation
-def gen_param(r, spec, i, allow_class=True):
-    fams = ["native"] * 5 + ["bool", "bool", "char", "cstr", "string", "string", "string", "enum", "struct", "struct"]
+def gen_param(r, spec, i, allow_class=True, allow_struct=True):
+    fams = ["native"] * 5 + ["bool", "bool", "char", "cstr", "string", "string", "string", "enum"]
+    if allow_struct:
+        # a struct used by a class method is not declared in the class's own header (wrap<Class>.h does not
+        # include the library header that defines the C struct): C05's subject, kept out of these libraries
+        fams += ["struct", "struct"]
     if spec.classes and allow_class:
         fams += ["class", "class"]
     fam = r.choice(fams)
@@ -207,9 +211,11 @@ def gen_param(r, spec, i, allow_class=True):
     return Param(fam, c, "ref" if "ref" in k else "ptr", "in" if k[0] == "c" else "inout", n, const=(k[0] == "c"))
 
 
-def gen_ret(r, spec):
+def gen_ret(r, spec, allow_struct=True):
     k = r.choice(["void", "void", "native", "native", "bool", "enum", "cstr", "stringref", "nativeptr", "nativeref", "struct",
                   "structptr", "classptr", "classref", "classcref", "classval"])
+    if not allow_struct and k.startswith("struct"):
+        k = "native"
     if k in ("native", "nativeptr", "nativeref"):
         return (k, r.choice(["int", "long", "double", "short"]))
     if k.startswith("class"):
@@ -247,9 +253,9 @@ def gen_spec(r, name, rich=True, nfree=None):
         funcs.append(Func("dtor", [], ("void",), cls=c, kind="dtor"))
         funcs.append(Func("ident", [], ("native", "int"), cls=c, const=True))
         for j in range(r.randrange(1, 5)):
-            ps = [gen_param(r, spec, i) for i in range(r.randrange(0, 4))]
+            ps = [gen_param(r, spec, i, allow_struct=False) for i in range(r.randrange(0, 4))]
             static = r.random() < 0.25
-            funcs.append(Func("m%d" % j, ps, gen_ret(r, spec), cls=c, const=(not static and r.random() < 0.4), static=static))
+            funcs.append(Func("m%d" % j, ps, gen_ret(r, spec, allow_struct=False), cls=c, const=(not static and r.random() < 0.4), static=static))
     spec.classes = allcls
     nfree = r.randrange(2, 7) if nfree is None else nfree
     for j in range(nfree):
@@ -272,8 +278,8 @@ def gen_spec(r, name, rich=True, nfree=None):
     if r.random() < 0.4:
         spec.ns = "ns1"
         for j in range(r.randrange(1, 3)):
-            ps = [gen_param(r, spec, i, allow_class=False) for i in range(r.randrange(0, 3))]
-            ret = gen_ret(r, spec)
+            ps = [gen_param(r, spec, i, allow_class=False, allow_struct=False) for i in range(r.randrange(0, 3))]
+            ret = gen_ret(r, spec, allow_struct=False)
             if ret[0].startswith("class"):
                 ret = ("void",)
             funcs.append(Func("nf%d" % j, ps, ret, ns=spec.ns))
